@@ -47,6 +47,11 @@ fn main() {
                 i += 1;
                 outdir = Some(PathBuf::from(&args[i]));
             }
+            "--child" => {
+                i += 1;
+                vharness::checks::c15::child_main(&args[i]);
+                return;
+            }
             "--replay" => {
                 i += 1;
                 replay = Some(PathBuf::from(&args[i]));
